@@ -76,6 +76,16 @@ CLAIMED = {
             'unchanged.',
             'dyadic cell sizes (exact float arithmetic); calendar arithmetic in mc/ref/rtime.py is independent of the library',
             'DESIGN.md section 4 C11'),
+    'C12': ('A', 'model_checking',
+            'bounded-exhaustive enumeration of time encodings decoded by the real code vs independent calendar arithmetic (and cftime)',
+            'CF: 4 units x 14 accepted reference-date spellings (date, hour, minute, second precision; UTC, Z, +0000 and '
+            'numeric offsets) x 4/6 reference instants x 8 calendars x {12-offset vector, single value, explicit '
+            'time_bounds, approximated bounds}; decode must equal exact Fraction arithmetic in the calendar, and '
+            'date2num/time2idx must invert it. IOAPI: every day of 4/7 years x 6 times of day as TFLAG and as '
+            'SDATE/STIME attributes; 6 start instants x 6 TSTEP values (1 s .. 168 h) x 1-3 steps through '
+            'ioapi_base/updatetflag and through CF time synthesised from TFLAG and from attributes, incl. bounds.',
+            'a raise is an accepted outcome; cftime is a second reference only where it parses the unit string',
+            'DESIGN.md section 4 C12'),
 }
 
 PENDING_REASON = ('check not built yet in this session; planned per DESIGN.md section 4 '
